@@ -59,7 +59,7 @@ def rows_arg(rows):
 
 
 def gen_op(rng):
-    k = rng.choice(list(range(20)) + [10, 11, 11, 11, 11])      # (flag operations are cheap and have many partial-overlap cases)
+    k = rng.choice(list(range(20)) + [10, 11, 11, 11, 11, 13, 13, 13, 14, 14, 16, 16])      # (flag operations are cheap and have many partial-overlap cases)
     edge = lambda hi: rng.choice([0, 1, hi - 1, hi, rng.randrange(hi + 1)])  # noqa: E731
     if k == 0:
         return ('getsprite', rng.randrange(256), rng.choice([1, 1, 2, 3, 17]), rng.choice([1, 1, 2, 16, 17]))
@@ -93,7 +93,7 @@ def gen_op(rng):
     if k == 12:
         return ('getnote', rng.randrange(64), rng.randrange(32))
     if k in (13, 14):
-        opt = lambda n: rng.choice([None, rng.randrange(n), n - 1])  # noqa: E731
+        opt = lambda n: rng.choice([None, None, rng.randrange(n), n - 1, n // 2])  # noqa: E731  (partial updates: any subset of the fields)
         return ('setnote', rng.randrange(64), rng.randrange(32), opt(64), opt(16), opt(8), opt(8))
     if k == 15:
         return ('getprops', rng.randrange(64))
